@@ -662,6 +662,64 @@ def asortBy {α : Type} (P : Params F) (cfg : Cfg) (val : α → Val F) (src : O
 def fncAsort (P : Params F) (cfg : Cfg) (src : Option (List (Val F))) : Except Err (Nat × List (Val F)) :=
   asortBy P cfg id src
 
+/-! ### the source container, the subscripts asorti sorts, user comparators -/
+
+/-- the source of `asort`/`asorti` as `__fnc_asort` reads it -/
+inductive Src (F : Type) where
+  | nil
+  /-- a map: its pairs in traversal order (`hawk_rtx_getfirstmapvalitr`/`getnextmapvalitr`) -/
+  | map (pairs : List (Str × Val F))
+  /-- an array (`hawk::array`): its slot table from slot 0; `none` = `HAWK_ARR_SLOT(arr, j)` is null
+      (never assigned, or removed with `delete`) -/
+  | arr (slots : List (Option (Val F)))
+
+/-- `for (i = 0, j = 0; j < ssz; j++) if (HAWK_ARR_SLOT(arr, j)) { va[i] = ..j..; i++; }`: the occupied slots with
+    their slot numbers, `j` counting from the given start -/
+def occupied : List (Option (Val F)) → Nat → List (Nat × Val F)
+  | [], _ => []
+  | none :: r, j => occupied r (j + 1)
+  | some v :: r, j => (j, v) :: occupied r (j + 1)
+
+/-- what `asort` sorts -/
+def Src.values : Src F → List (Val F)
+  | .nil => []
+  | .map ps => ps.map (fun p => p.2)
+  | .arr sl => (occupied sl 0).map (fun p => p.2)
+
+/-- what `asorti` sorts: the keys of a map as plain strings (`hawk_rtx_makestrvalwithoocs(rtx, key)`, flag 0), the
+    slot NUMBERS of an array as integers (`hawk_rtx_makeintval(rtx, j)`) -/
+def Src.subscripts : Src F → List (Val F)
+  | .nil => []
+  | .map ps => ps.map (fun p => .str p.1 0)
+  | .arr sl => (occupied sl 0).map (fun p => .int p.1)
+
+def Src.elems (sortKeys : Bool) (src : Src F) : List (Val F) :=
+  if sortKeys then src.subscripts else src.values
+
+/-- `__fnc_asort(rtx, fi, sort_keys)` with comparator `c`: `asort_compare` (= `hawk_rtx_cmpval`) by default, or
+    `asort_compare_ud` (call the user function, `hawk_rtx_valtoint` its result) — the user function is a parameter.
+    Result: return value and the destination's elements at subscripts 1..n.  Which variable receives the
+    destination (second argument, the source itself in the one-argument form, source = destination) does not
+    change its contents. -/
+def fncAsortSrc (c : Val F → Val F → Except Err Int) (sortKeys : Bool) (src : Src F) : Except Err (Nat × List (Val F)) :=
+  match src with
+  | .nil => .ok (0, [])
+  | _ =>
+    match isort c (src.elems sortKeys) with
+    | .ok out => .ok (out.length, out)
+    | .error e => .error e
+
+/-- `function ucmp(a, b) { return (a < b)? -1: ((a > b)? 1: 0); }` of the harness, evaluated with the model's operators -/
+def userCmp3 (P : Params F) (cfg : Cfg) (a b : Val F) : Except Err Int :=
+  match evalOp P cfg .lt a b with
+  | .error e => .error e
+  | .ok true => .ok (-1)
+  | .ok false =>
+    match evalOp P cfg .gt a b with
+    | .error e => .error e
+    | .ok true => .ok 1
+    | .ok false => .ok 0
+
 /-! ## exact binary floats for the driver: every finite `hawk_flt_t` is `m * 2^e` -/
 
 inductive Dy where
